@@ -297,6 +297,24 @@ def run_many(jobs, nslots, log, logdir, prefix="kt", crate_dir=KANI_CRATE):
                              j.get("extra", ()), logdir=logdir, crate_dir=crate_dir, cwd=j.get("cwd"),
                              unwindset=j.get("unwindset"))
                 st, why = classify(r, j.get("must_cover"))
+                if st == "inconclusive" and "solver error/OOM" in why and float(j.get("mem", 12)) < 40:
+                    # CBMC died inside its address-space cap (typical for code that grew): one retry
+                    # with a larger cap, admitted like any other job
+                    big = min(48.0, max(30.0, 2.5 * float(j.get("mem", 12))), float(os.environ.get("VERIF_MEM_GB", "54")))
+                    if big > need:
+                        with cv:
+                            budget["free"] += need
+                            cv.notify_all()
+                            need = big
+                            while budget["free"] < need:
+                                cv.wait()
+                            budget["free"] -= need
+                        log("  [....] %-46s retry with a %d GB cap after: %s" % (j["harness"], int(big), why[:80]))
+                        r = run_kani(j["harness"], slot, j.get("cap", 600), big,
+                                     j.get("extra", ()), logdir=logdir, crate_dir=crate_dir, cwd=j.get("cwd"),
+                                     unwindset=j.get("unwindset"))
+                        st, why = classify(r, j.get("must_cover"))
+                        j = dict(j, mem=big)
                 if st == "fail":
                     # second run to obtain concrete values for native replay
                     r2 = run_kani(j["harness"], slot, j.get("cap", 600), j.get("mem", 12),
